@@ -184,10 +184,10 @@ def _mk_read_transfer(tag, cls, siz, n, budget, per_request, tier):
     f = ns[name]
     f.__module__ = __name__
     f.__doc__ = """
-    pre: all({lo} <= v <= {hi} for v in ({vs},))
+    pre: {conj}
     pre: 0 <= beg0 and 1 <= elm and beg0 + elm <= {n}
     post: _
-    """.format(lo=lo, hi=hi, vs=", ".join("v%d" % i for i in range(n)), n=n)
+    """.format(conj=" and ".join("%d <= v%d <= %d" % (lo, i, hi) for i in range(n)), n=n)
     globals()[name] = obligation(
         'C04', tier=tier, timeout=900, path_timeout=120, drives=DRIVEN,
         symbolic=['v0..v%d (tag contents, full %s range)' % (n - 1, cls.__name__), 'beg0 (start element)', 'elm (count)'],
@@ -261,9 +261,9 @@ def _mk_write_tiling(tag, cls, siz, n, beg0, pieces, tier):
     f = ns[name]
     f.__module__ = __name__
     f.__doc__ = """
-    pre: all({lo} <= v <= {hi} for v in ({vs},))
+    pre: {conj}
     post: _
-    """.format(lo=lo, hi=hi, vs=", ".join(ivs + wvs))
+    """.format(conj=" and ".join("%d <= %s <= %d" % (lo, v, hi) for v in ivs + wvs))
     globals()[name] = obligation(
         'C04', tier=tier, timeout=600, path_timeout=120, drives=DRIVEN,
         symbolic=['i* (initial contents)', 'w* (written values)'],
